@@ -1,10 +1,193 @@
 /-
 C03 — MusicXML export then import returns the same score; re-export is a fixpoint.
-Property theorems over Model/XmlMeasure.lean and Model/RangeNumbers.lean.
+
+Property theorems over the executable models
+  Model/XmlMeasure.lean   writer `linearize` (partitura/io/exportmusicxml.py, repaired), readers `interpret`
+                          (MusicXML semantics) and `readMeasure` (partitura/io/importmusicxml.py)
+  Model/RangeNumbers.lean range numbering (writer), pairing by number and tie pairing (reader)
+The models are tied to the code by harness/props/c03.py (streams lin / int / snd / numg / num / pair / tie).
 -/
-import PartituraModel.Model.XmlMeasure
+import PartituraModel.Proofs.C03Perm
+import PartituraModel.Proofs.C03Ranges
 
 namespace C03
-open Model.Xml
+open Model.Xml Model.Ranges
+
+/-! ### the written measure, read back -/
+
+/-- **reader_writer.**  For every well-formed measure content — any number of divisions segments, voices,
+    chords, grace sequences, gaps, other elements anywhere in the measure — reading what `linearize` wrote
+    (with the independent MusicXML reader `interpret` when `spec = true`, with the importer's bookkeeping
+    `readMeasure` when `spec = false`) succeeds, ends the measure exactly at its end, and returns a
+    permutation of the notes of the measure: each with its identity, onset, duration (none for a grace
+    note), staff (a missing staff read as 1) and the voice `remove_voice_polyphony` left it in (a missing
+    voice read as 1). -/
+theorem reader_writer (m : MeasureContent) (hwf : MeasureWF m) (spec : Bool) :
+    ∃ out, interpretWith spec m.start (linearize m) = some (out, m.stop) ∧
+      out.Perm (m.segs.flatMap fun s => (assignVoices s.notes).flatMap fun vn => vn.2.map (NoteIn.out vn.1)) :=
+  ⟨C03.Main.measureOut m, C03.Main.interpret_linearize spec m hwf, C03.Perm.measureOut_perm m hwf⟩
+
+/-- the order too is determined: segment by segment, voice by voice, each voice in document order -/
+theorem reader_writer_order (m : MeasureContent) (hwf : MeasureWF m) (spec : Bool) :
+    interpretWith spec m.start (linearize m) =
+      some (m.segs.flatMap fun s => ((segPlaced m.nStaves s).flatMap (·.2)).map Placed.out, m.stop) :=
+  C03.Main.interpret_linearize spec m hwf
+
+/-- **segments_compose.**  Mid-measure changes of divisions: the measure is read back as its segments one
+    after the other, each starting where the previous one ended (the reader is exactly at the boundary when
+    the `<attributes>` of the next segment are met). -/
+theorem segments_compose (nStaves : Nat) (segs1 segs2 : List Segment)
+    (hwf : MeasureWF { nStaves := nStaves, segs := segs1 ++ segs2 }) (h1 : segs1 ≠ []) (spec : Bool) :
+    interpretWith spec (MeasureContent.start { nStaves := nStaves, segs := segs1 }) (linearize { nStaves := nStaves, segs := segs1 ++ segs2 }) =
+      some (segs1.flatMap (C03.Main.segOut nStaves) ++ segs2.flatMap (C03.Main.segOut nStaves),
+        MeasureContent.stop { nStaves := nStaves, segs := segs1 ++ segs2 }) := by
+  have := C03.Main.interpret_linearize spec _ hwf
+  obtain ⟨a, r, ha⟩ := List.exists_cons_of_ne_nil h1
+  subst ha
+  simpa [C03.Main.measureOut, MeasureContent.start, List.flatMap_append] using this
+
+/-- the independent reader and the importer's reader agree on everything the exporter writes -/
+theorem readers_agree (m : MeasureContent) (hwf : MeasureWF m) :
+    interpret m.start (linearize m) = readMeasure m.start (linearize m) := by
+  unfold interpret readMeasure
+  rw [C03.Main.interpret_linearize true m hwf, C03.Main.interpret_linearize false m hwf]
+
+/-! ### voices -/
+
+/-- **polyphony_removed.**  `remove_voice_polyphony` keeps every note exactly once; a voice that was there
+    before keeps its number and a part of its notes, and what it keeps MusicXML can hold in one voice (one
+    duration per onset among the non-grace notes, no note running past the next onset); a voice that is new
+    has a number above every voice in use and holds no two notes that sound at the same time. -/
+theorem polyphony_removed (notes : List NoteIn) (hnd : (notes.map (·.idx)).Nodup) :
+    ((assignVoices notes).flatMap (·.2)).Perm notes ∧
+    ∀ vn ∈ assignVoices notes,
+      (C03.Voices.Monophonic vn.2 ∧ (∃ ns, (vn.1, ns) ∈ partitionVoices notes ∧ ∀ n ∈ vn.2, n ∈ ns ∧ n.voice = vn.1)) ∨
+      ((∀ e ∈ partitionVoices notes, e.1 < vn.1) ∧ vn.2.Pairwise C03.Voices.NonOverlap) := by
+  refine ⟨C03.Voices.assignVoices_perm notes hnd, ?_⟩
+  intro vn hvn
+  rw [C03.Voices.assignVoices_eq, List.mem_append] at hvn
+  have hp := C03.Voices.partition_perm notes
+  have hnd' : ∀ vn ∈ partitionVoices notes, (vn.2.map (·.idx)).Nodup :=
+    C03.Voices.nodup_of_flat ((hp.map _).nodup_iff.mpr hnd)
+  rcases hvn with hvn | hvn
+  · left
+    obtain ⟨hm, ns, hns, hsub⟩ := C03.Voices.kept_voices _ _ [] hnd' vn hvn
+    exact ⟨hm, ns, hns, fun n hn => ⟨hsub n hn, C03.Voices.partition_voice notes _ hns n (hsub n hn)⟩⟩
+  · right
+    obtain ⟨hfresh, hapart⟩ := C03.Voices.new_voices_fresh notes vn hvn
+    exact ⟨fun e he => Nat.lt_of_le_of_lt (C03.Voices.le_maxVoice he) hfresh, hapart⟩
+
+/-! ### range numbers -/
+
+/-- the number handed to a new range is the smallest positive number that no open range of its label uses -/
+theorem number_is_smallest_free (used : List Nat) :
+    smallestFree used ∉ used ∧ 1 ≤ smallestFree used ∧ ∀ m, 1 ≤ m → m < smallestFree used → m ∈ used :=
+  C03.Ranges.smallestFree_spec used
+
+/-- **numbers_distinct.**  After any sequence of start/stop elements (any prefix of any document, in whatever
+    order the exporter meets them), two different ranges of one label that are open carry different numbers. -/
+theorem numbers_distinct (ks : List Key) {l r1 r2 n1 n2 : Nat}
+    (h1 : ((l, r1), n1) ∈ counterAfter [] ks) (h2 : ((l, r2), n2) ∈ counterAfter [] ks) (hr : r1 ≠ r2) : n1 ≠ n2 :=
+  C03.Ranges.distinct_of_cinv (C03.Ranges.cinv_counterAfter ks C03.Ranges.cinv_nil) h1 h2 hr
+
+/-- **ranges_paired** (in the order the exporter numbers the elements; `readMarks` additionally re-sorts the
+    elements of one note by number, which the harness compares — see `PARTIAL`).  Whatever the order in which
+    the starts and stops of the ranges of one kind come (a stop may precede its start), as long as every
+    range is met at most once as a start and once as a stop and ends no earlier than it starts: pairing the
+    written numbers the way `handle_slurs` (`checkTime = true`) / `handle_tuplets` does gives back, for every
+    range that was closed, its own start note and stop note, loses nothing, and leaves open exactly what the
+    exporter's counter still holds. -/
+theorem ranges_paired_partial (label : Nat) (tbl : Nat → C03.Ranges.Rng) (htime : C03.Ranges.TimeOK tbl)
+    (checkTime : Bool) (evs : List C03.Ranges.REv) (hwf : C03.Ranges.WFEvs [] [] evs) :
+    let st := pairAll checkTime { ongoing := fun _ => none, done := [], lost := [] }
+      (C03.Ranges.marksOf label tbl [] evs)
+    st.done = (C03.Ranges.closedBy [] evs).map (fun r => ((tbl r).sN, (tbl r).eN)) ∧ st.lost = [] ∧
+      st.ongoing = C03.Ranges.ongoingOf tbl (C03.Ranges.finalS [] evs) := by
+  have := C03.Ranges.pairAll_marksOf label tbl checkTime htime evs [] []
+    { ongoing := fun _ => none, done := [], lost := [] } ⟨by simp, by simp⟩ (by funext k; simp [C03.Ranges.ongoingOf]) hwf
+  simpa [C03.Ranges.cOf] using this
+
+/-! ### the hypotheses are satisfiable, and the witnesses of the repaired defects -/
+
+section examples
+
+private def nt (idx onset dur voice : Nat) (pitch : Int) : NoteIn :=
+  { idx := idx, onset := onset, dur := dur, grace := false, voice := voice, staff := 1, pitch := pitch,
+    step := [67], gracePrev := false, seq := [] }
+
+private def gr (idx onset voice : Nat) (pitch : Int) (prev : Bool) (seq : List GraceRef) : NoteIn :=
+  { idx := idx, onset := onset, dur := 0, grace := true, voice := voice, staff := 2, pitch := pitch,
+    step := [65], gracePrev := prev, seq := seq }
+
+/-- F-C03-1/F-C03-2 witness: voice 2 has a gap (4..8) and stops short of the end of the measure; voice 1 holds
+    a chord whose members differ in duration (the longer one has to move to a new voice) -/
+private def w1 : MeasureContent :=
+  { nStaves := 1,
+    segs := [{ start := 0, stop := 16,
+               notes := [nt 0 0 16 1 60, nt 1 0 4 2 64, nt 2 8 4 2 67, nt 3 0 8 1 72],
+               others := [{ onset := 0, order := 1, sig := "attributes" }, { onset := 8, order := 2, sig := "direction" }] }] }
+
+example : MeasureWF w1 := by decide
+
+example : linearize w1 =
+    [.other 1 "attributes", .note 3 8 false false 1 0, .other 2 "direction", .backup 8,
+     .note 1 4 false false 2 0, .forward 4, .note 2 4 false false 2 0, .backup 12, .note 0 16 false false 3 0] := by
+  decide
+
+example : interpret 0 (linearize w1) =
+    some ([⟨3, 0, 8, 1, 1⟩, ⟨1, 0, 4, 2, 1⟩, ⟨2, 8, 4, 2, 1⟩, ⟨0, 0, 16, 3, 1⟩], 16) := by decide
+
+/-- the unrepaired exporter wrote the second voice without the `<forward>` and stopped at the last note:
+    an independent reader then finds note 2 at 4 instead of 8 — the negation of the property at the witness -/
+example : interpret 0 [.other 1 "attributes", .note 3 8 false false 1 0, .other 2 "direction", .backup 8,
+      .note 1 4 false false 2 0, .note 2 4 false false 2 0, .backup 8, .note 0 16 false false 3 0] ≠
+    some ([⟨3, 0, 8, 1, 1⟩, ⟨1, 0, 4, 2, 1⟩, ⟨2, 8, 4, 2, 1⟩, ⟨0, 0, 16, 3, 1⟩], 16) := by decide
+
+/-- two divisions segments, a grace run of two before a chord on staff 2 of two staves, a voice without number,
+    a trailing gap -/
+private def w2 : MeasureContent :=
+  { nStaves := 2,
+    segs := [{ start := 10, stop := 14,
+               notes := [gr 0 10 0 70 false [⟨0, 10, 2⟩, ⟨1, 10, 2⟩], gr 1 10 0 71 true [⟨1, 10, 2⟩],
+                         nt 2 10 2 0 60, nt 3 10 2 0 64],
+               others := [{ onset := 10, order := 0, sig := "barline" }] },
+             { start := 14, stop := 20,
+               notes := [nt 4 14 3 0 62],
+               others := [{ onset := 14, order := 1, sig := "attributes" }, { onset := 20, order := 2, sig := "direction" }] }] }
+
+example : MeasureWF w2 := by decide
+
+example : interpret 10 (linearize w2) =
+    some ([⟨0, 10, 0, 1, 2⟩, ⟨1, 10, 0, 1, 2⟩, ⟨3, 10, 2, 1, 1⟩, ⟨2, 10, 2, 1, 1⟩, ⟨4, 14, 3, 1, 1⟩], 20) := by decide
+
+example : readMeasure 10 (linearize w2) = interpret 10 (linearize w2) := by decide
+
+/-- F-C03-4 witness: slurs A = (n0..n2), B = (n1..n4), C = (n3..n5) overlap pairwise; the unrepaired exporter numbered
+    them 1, 2, 2.  Elements in document order: A+ B+ A- C+ B- C-. -/
+example : numberAll [] [(0, 0), (0, 1), (0, 0), (0, 2), (0, 1), (0, 2)] = [1, 2, 1, 1, 2, 1] := by decide
+
+private def tblEx : Nat → C03.Ranges.Rng
+  | 0 => ⟨0, 0, 2, 8⟩
+  | 1 => ⟨1, 4, 4, 16⟩
+  | _ => ⟨3, 12, 5, 20⟩
+
+example : C03.Ranges.WFEvs [] [] [(0, true), (1, true), (0, false), (2, true), (1, false), (2, false)] := by
+  simp [C03.Ranges.WFEvs, C03.Ranges.stepS, C03.Ranges.lookupS, C03.Ranges.eraseS]
+
+example : C03.Ranges.TimeOK tblEx := by
+  intro r
+  match r with
+  | 0 => decide
+  | 1 => decide
+  | (n + 2) => show (12 : Nat) ≤ 20; decide
+
+/-- a stop that comes before its start in the document (the slur ends in voice 1 and starts in voice 2) -/
+example : C03.Ranges.WFEvs [] [] [(0, false), (1, true), (0, true), (1, false)] := by
+  simp [C03.Ranges.WFEvs, C03.Ranges.stepS, C03.Ranges.lookupS, C03.Ranges.eraseS]
+
+example : (readMarks true [⟨0, 0, true, 1⟩, ⟨1, 4, true, 2⟩, ⟨2, 8, false, 1⟩, ⟨3, 12, true, 1⟩, ⟨4, 16, false, 2⟩,
+    ⟨5, 20, false, 1⟩]).done = [(0, 2), (1, 4), (3, 5)] := by decide
+
+end examples
 
 end C03
